@@ -332,7 +332,8 @@ func (v *env) one(k kase) {
 	}
 	if ferr != nil {
 		key := "gc-loses-data"
-		if k.Writer != "" {
+		if k.Writer != "" && (strings.Contains(ferr.Error(), "root hash") || strings.Contains(ferr.Error(), "wtag") || strings.Contains(ferr.Error(), "wbranch")) {
+			// the store root / the refs the concurrent writer created are what is missing
 			key = "gc-loses-concurrent-write"
 		}
 		e.Rep.Violate(key, "after GC the database no longer loads through the public API: "+ferr.Error(), k)
